@@ -28,7 +28,7 @@ Definition covered_by_yes (y : name) (g : list effect) (i : nat) : Prop :=
       cache ([hit_key]: reloadManagedCertificate);
     - every name the policy is asked about is the handshake's own name, its wildcard variant, or
       the first subject of the matched certificate (the one a revoked certificate is replaced
-      under, fix 7a4c3bf). *)
+      under, fix fba364d). *)
 Theorem C02_gated : forall is_space w h own kids res w',
   handshake is_space w h = (own, kids, res, w') -> od_on w = true -> store_wf w ->
   forall g, In g (own :: kids) ->
@@ -246,7 +246,7 @@ Proof. vm_compute. reflexivity. Qed.
 (** the witness of the fixed finding C02-revoked-renewal-other-subject: a cached wildcard certificate
     is revoked, the handshake for foo.ex matches it; the policy permits foo.ex but not *.ex.  The
     policy is asked about *.ex, the subject forceRenew would renew: denied, evicted, nothing issued
-    (before fix 7a4c3bf the policy was asked about foo.ex and the issuer about *.ex) *)
+    (before fix fba364d the policy was asked about foo.ex and the issuer about *.ex) *)
 Example C02_ex_revoked_wildcard_other_subject :
   let wc := wild ex_name in
   let c := Cert 1 [wc] true false false true false None in
